@@ -627,6 +627,27 @@ def run(ctx, res):
             res.evaluations += 1
             res.count("handbuilt." + case["mode"])
             case_handbuilt(dc, case, res, tmp, tie)
+        # ---------- B2a. concat's refusals: no matrix at all, matrices of different sizes (tie only) ------------------------
+        rng = ctx.subrng("mismatch")
+        try:
+            dc.ChunkedDistanceMatrix.concat([])
+            out = "no error"
+        except Exception as e:  # noqa
+            out = "err:" + type(e).__name__
+        tie.add("dense -", out, ("concat-empty",))
+        for t in range(ctx.scale(20, 100)):
+            sizes = [rng.choice([2, 3, 4]) for _ in range(rng.choice([1, 2, 3]))]
+            ms = []
+            for n in sizes:
+                kk = rng.choice([1, 2])
+                ms.append(dc.calculate_pairwise_distance_matrix_on_predictions(StubThetas(n), StubMetric(0), None, rng.randrange(kk), kk))
+            try:
+                d = dc.ChunkedDistanceMatrix.concat(ms).to_dense()
+                out = show_dense_int(d, sizes[0])
+            except Exception as e:  # noqa
+                out = "err:" + type(e).__name__
+            res.count("concat.mixed_sizes" if len(set(sizes)) > 1 else "concat.same_size")
+            tie.add("dense " + "/".join(cdm_arg(m) for m in ms), out, ("concat-sizes", tuple(sizes)))
         # ---------- B2b. add_value's refusals and boundary entries (tie only: exercises the model's addValue branches) --------
         rng = ctx.subrng("build")
         for t in range(ctx.scale(60, 400)):
